@@ -61,15 +61,13 @@ let handle_l (f : string array) (o : string array) =
   let input = [("input", inp); ("input_hex", f.(1)); ("script", script)] in
   bump "lines.L"; sample "L" (f.(1) ^ " " ^ script);
   note_distinct "lex_inputs" f.(1);
-  (* the model: a lexer state is the remaining input plus "the last token returned was EOF" (the currItem shortcut of Peek) *)
-  let rest = ref (chars_of_string inp) and last_eof = ref false in
+  (* the model: Lex.lstate / lnext / lpeek (the functions the C16 theorems are about) *)
+  let st = ref (linit (chars_of_string inp)) in
   let res = Buffer.create 64 in
   String.iter (fun c ->
-    let (t, r) = next_token cls !rest in
-    let t' = if c = 'P' && !last_eof then { typ0 = TEOF; val1 = chars_of_string "EOF" } else t in
-    if c = 'N' then begin rest := r; last_eof := (t.typ0 = TEOF) end;
+    let t = if c = 'P' then lpeek cls !st else begin let (t, st') = lnext cls !st in st := st'; t end in
     if Buffer.length res > 0 then Buffer.add_char res ' ';
-    Buffer.add_string res (Printf.sprintf "%c%d:%s" c (typnum t'.typ0) (if t'.typ0 = TErr then "" else hex t'.val1))) script;
+    Buffer.add_string res (Printf.sprintf "%c%d:%s" c (typnum t.typ0) (if t.typ0 = TErr then "" else hex t.val1))) script;
   bump "corr.lexscript";
   if Buffer.contents res <> o.(0) then record_mismatch "lexscript" (input @ [("go", o.(0)); ("model", Buffer.contents res)]);
   check_l inp script o.(0) input
